@@ -7,6 +7,8 @@ import hashlib
 import importlib
 import json
 import os
+import re
+import subprocess
 import sys
 import time
 import traceback
@@ -126,6 +128,89 @@ def _task(args):
         return {"error": traceback.format_exc()}
 
 
+class process_config:
+    """Process-level configuration a case asks for under its "_env" key.  The library's results must not depend on
+    it: {"debug_logging": true} = the host application has verbose logging switched on (root logger at DEBUG, records
+    discarded by a NullHandler); {"decimal_prec": 5} = the calling thread's decimal context has a reduced precision;
+    {"logging_disabled": true} = logging.disable(CRITICAL) is in force; {"warnings_error": true} = warnings are turned
+    into errors (python -W error, pytest filterwarnings = error)."""
+    def __init__(self, env):
+        self.env = env or {}
+
+    def __enter__(self):
+        if self.env.get("debug_logging"):
+            import logging
+            self.root = logging.getLogger()
+            self.level = self.root.level
+            self.handler = logging.NullHandler()
+            self.root.addHandler(self.handler)
+            self.root.setLevel(logging.DEBUG)
+            self.disabled = logging.root.manager.disable
+            logging.disable(logging.NOTSET)
+        if self.env.get("logging_disabled"):
+            import logging
+            self.disabled2 = logging.root.manager.disable
+            logging.disable(logging.CRITICAL)
+        if self.env.get("warnings_error"):
+            import warnings
+            import gcmpy  # noqa: F401  (import-time warnings, e.g. SyntaxWarning for a docstring escape, are not the point)
+            self.cw = warnings.catch_warnings()
+            self.cw.__enter__()
+            # (deprecation notices are left alone: adding one is an ordinary, behaviour-preserving change)
+            warnings.simplefilter("error")
+            for cat in (DeprecationWarning, PendingDeprecationWarning, FutureWarning, ImportWarning, ResourceWarning):
+                warnings.simplefilter("ignore", cat)
+        if self.env.get("decimal_prec"):
+            import decimal
+            self.prec = decimal.getcontext().prec
+            decimal.getcontext().prec = int(self.env["decimal_prec"])
+
+    def __exit__(self, *a):
+        if self.env.get("debug_logging"):
+            import logging
+            self.root.setLevel(self.level)
+            self.root.removeHandler(self.handler)
+            logging.disable(self.disabled)
+        if self.env.get("logging_disabled"):
+            import logging
+            logging.disable(self.disabled2)
+        if self.env.get("warnings_error"):
+            self.cw.__exit__(*a)
+        if self.env.get("decimal_prec"):
+            import decimal
+            decimal.getcontext().prec = self.prec
+
+
+def run_check(mod, case):
+    """mod.check(case) under the process configuration the case carries (none for most cases)."""
+    env = case.get("_env") if isinstance(case, dict) else None
+    if not env:
+        return mod.check(case)
+    with process_config(env):
+        info = mod.check(case)
+    if isinstance(info, dict):
+        info["classes"] = sorted(set(info.get("classes") or []) | {"env_" + k for k, v in env.items() if v})
+    return info
+
+
+NO_WARNINGS_ERROR = [False]  # set from the check module's ENV_EXCLUDE
+
+
+def with_env(case, k):
+    """one generated case in ten (k == 0) runs with verbose logging enabled in the process, one in ten (k == 1)
+    with a low-precision decimal context, one in ten (k == 2) with logging disabled process-wide, one in ten (k == 3) with warnings turned into errors"""
+    if isinstance(case, dict) and "_env" not in case:
+        if k == 0:
+            return {**case, "_env": {"debug_logging": True}}
+        if k == 1:
+            return {**case, "_env": {"decimal_prec": 5}}
+        if k == 2:
+            return {**case, "_env": {"logging_disabled": True}}
+        if k == 3 and not NO_WARNINGS_ERROR[0]:
+            return {**case, "_env": {"warnings_error": True}}
+    return case
+
+
 def purge_gcmpy():
     """forget every gcmpy module so that the next import re-executes them: module / class level state the
     library may keep (caches, counters) starts from scratch, as in a fresh process."""
@@ -138,11 +223,11 @@ def run_isolated(mod, case, prefix=()):
     purge_gcmpy()
     for c in prefix:
         try:
-            mod.check(json.loads(c))
+            run_check(mod, json.loads(c))
         except Violation:
             pass
     try:
-        mod.check(json.loads(canon(case)))
+        run_check(mod, json.loads(canon(case)))
     except Violation as v:
         return (v.kind, str(v))
     return None
@@ -181,13 +266,14 @@ def _finalize(mod, case, msg, trace):
 
 def _run_enum(modname, cases, collect):
     mod = importlib.import_module(modname)
+    NO_WARNINGS_ERROR[0] = "warnings_error" in getattr(mod, "ENV_EXCLUDE", ())
     acc = Acc()
     failure = None
     trace = []
     for case in cases:
         case = json.loads(canon(case))
         try:
-            info = mod.check(case)
+            info = run_check(mod, case)
         except Violation as v:
             acc.evals += 1
             if collect:
@@ -207,6 +293,7 @@ def _run_enum(modname, cases, collect):
 
 def _run_hyp(modname, tier, seed, shard, n, do_shrink, collect):
     mod = importlib.import_module(modname)
+    NO_WARNINGS_ERROR[0] = "warnings_error" in getattr(mod, "ENV_EXCLUDE", ())
     from hypothesis import given, settings, HealthCheck, Phase, Verbosity
     from hypothesis import seed as hseed
     import hypothesis.errors as herr
@@ -217,7 +304,7 @@ def _run_hyp(modname, tier, seed, shard, n, do_shrink, collect):
     def body(case):
         case = json.loads(canon(case))
         try:
-            info = mod.check(case)
+            info = run_check(mod, case)
         except Violation as v:
             acc.evals += 1
             if collect:
@@ -237,7 +324,9 @@ def _run_hyp(modname, tier, seed, shard, n, do_shrink, collect):
                   report_multiple_bugs=False, phases=phases, verbosity=Verbosity.quiet,
                   suppress_health_check=[HealthCheck.too_slow, HealthCheck.data_too_large,
                                          HealthCheck.large_base_example])
-    test = hseed(derive(seed, mod.PID, shard))(st(given(mod.strategy(tier))(body)))
+    from hypothesis import strategies as hst
+    strat = hst.tuples(mod.strategy(tier), hst.integers(0, 9)).map(lambda t: with_env(t[0], t[1]))
+    test = hseed(derive(seed, mod.PID, shard))(st(given(strat)(body)))
     failure = None
     try:
         test()
@@ -260,7 +349,8 @@ def load_findings():
     p = os.path.join(VERIF, "known_findings.json")
     if not os.path.exists(p):
         return []
-    return json.load(open(p))["findings"]
+    with open(p) as fh:
+        return json.load(fh)["findings"]
 
 
 def open_finding(fid):
@@ -294,6 +384,9 @@ def ensure_env():
         sys.exit(2)
 
 
+BOOT = "import sys; sys.path.insert(0, sys.argv.pop(1)); from vlib.runner import main; sys.exit(main(sys.argv[1:]))"
+
+
 def main(argv=None):
     import argparse
     ap = argparse.ArgumentParser()
@@ -302,6 +395,8 @@ def main(argv=None):
     ap.add_argument("--replay")
     ap.add_argument("--collect", action="store_true", help="bucket violations instead of stopping")
     ap.add_argument("--no-evidence", action="store_true")
+    ap.add_argument("--opt-pass", action="store_true",
+                    help="(internal) reduced pass of the same check in an interpreter started with -O")
     a = ap.parse_args(argv)
     try:
         ensure_env()
@@ -319,20 +414,25 @@ def main(argv=None):
     modname = "checks." + pid.lower()
     try:
         mod = importlib.import_module(modname)
+        NO_WARNINGS_ERROR[0] = "warnings_error" in getattr(mod, "ENV_EXCLUDE", ())
     except BaseException:
         print("HARNESS-ERROR " + traceback.format_exc())
         return 2
 
     if a.replay:
-        data = json.load(open(a.replay))
+        with open(a.replay) as fh:
+            data = json.load(fh)
+        if isinstance(data, dict) and data.get("interpreter_flags") == "-O" and not sys.flags.optimize:
+            # found in the optimised-interpreter pass: replay it there
+            return subprocess.call([sys.executable, "-O", "-W", "ignore", "-c", BOOT, VERIF] + list(argv))
         case = data["case"] if isinstance(data, dict) and "case" in data and "property" in data else data
         try:
             for c in (data.get("prefix") or []) if isinstance(data, dict) else []:
                 try:
-                    mod.check(c)
+                    run_check(mod, c)
                 except Violation:
                     pass
-            info = mod.check(case)
+            info = run_check(mod, case)
         except Violation as v:
             print(f"replay: {v}")
             print(f"VIOLATION property={pid} replay={a.replay}")
@@ -349,7 +449,13 @@ def main(argv=None):
     t0 = time.time()
     shards, n = mod.BUDGET[tier]
     do_shrink = True if tier == "thorough" else getattr(mod, "SHRINK_IN_QUICK", True)
-    tasks = [("hyp", modname, tier, seed, s, n, do_shrink, a.collect) for s in range(shards)]
+    shard0 = 0
+    if a.opt_pass:
+        # the same check in an interpreter that strips assert statements: a fifth of the generated budget, on
+        # shards of its own, plus corpus and enumerated families
+        n = max(2, n // 5)
+        shard0 = 1000
+    tasks = [("hyp", modname, tier, seed, shard0 + s, n, do_shrink, a.collect) for s in range(shards)]
     exhaustive = False
     # committed regression corpus (shrunk failures of earlier defects / seeded changes): always replayed
     cdir = os.path.join(VERIF, "corpus", pid)
@@ -357,7 +463,8 @@ def main(argv=None):
     if os.path.isdir(cdir):
         for fn in sorted(os.listdir(cdir)):
             if fn.endswith(".json"):
-                d = json.load(open(os.path.join(cdir, fn)))
+                with open(os.path.join(cdir, fn)) as fh:
+                    d = json.load(fh)
                 if isinstance(d, dict) and "case" in d and "property" in d:
                     corpus.append(list(d.get("prefix") or []) + [d["case"]])
                 else:
@@ -367,6 +474,8 @@ def main(argv=None):
     ncorpus = sum(len(g) for g in corpus)
     if hasattr(mod, "enumerated"):
         cases = list(mod.enumerated(tier, seed))
+        # members 2, 4, 6 and 8 of every nine of an enumerated family run under one of the process configurations
+        cases = [with_env(c, {4: 0, 2: 1, 6: 2, 8: 3}.get(i % 9, 9)) for i, c in enumerate(cases)]
         if cases:
             exhaustive = bool(getattr(mod, "EXHAUSTIVE", False))
             per = max(1, min(getattr(mod, "ENUM_CHUNK", 50), (len(cases) + NPROC * 4 - 1) // (NPROC * 4)))
@@ -430,6 +539,19 @@ def main(argv=None):
         cur = bykind.get(f["kind"])
         if cur is None or len(canon(f["case"])) < len(canon(cur["case"])):
             bykind[f["kind"]] = f
+    # second pass in an interpreter started with -O (assert statements are stripped there: a library whose behaviour
+    # rests on an assert's side effect differs only in such a process)
+    opt = None
+    if not (a.opt_pass or a.collect or bykind or os.environ.get("VERIF_NO_OPT_PASS")):
+        cp = subprocess.run([sys.executable, "-O", "-W", "ignore", "-c", BOOT, VERIF, pid, "--tier", tier, "--no-evidence", "--opt-pass"],
+                            capture_output=True, text=True)
+        m = re.search(r": (\d+) evaluations, (\d+) distinct non-trivial", cp.stdout)
+        opt = {"returncode": cp.returncode, "evaluations": int(m.group(1)) if m else 0,
+               "distinct_nontrivial": int(m.group(2)) if m else 0, "examples_per_shard": max(2, n // 5)}
+        if cp.returncode not in (0, 1):
+            print("HARNESS-ERROR in the optimised-interpreter pass:\n" + (cp.stdout + cp.stderr)[-3000:])
+            return 2
+        opt["output"] = cp.stdout if cp.returncode == 1 else ""
     wall = time.time() - t0
 
     if not a.no_evidence:
@@ -449,8 +571,10 @@ def main(argv=None):
             },
             "assumptions": list(getattr(mod, "ASSUMPTIONS", [])),
             "wall_s": round(wall, 2),
-            "violations": len(bykind),
+            "violations": len(bykind) + (1 if opt and opt["returncode"] == 1 else 0),
         }
+        if opt is not None:
+            ev["coverage"]["optimised_interpreter_pass"] = {k: v for k, v in opt.items() if k != "output"}
         if exhaustive:
             ev["coverage"]["exhaustive_note"] = getattr(mod, "EXHAUSTIVE_NOTE", "")
         os.makedirs(os.path.join(VERIF, "evidence"), exist_ok=True)
@@ -475,11 +599,19 @@ def main(argv=None):
             path = os.path.join(rdir, chash(f["case"]) + ".json")
             with open(path, "w") as fh:
                 rec = {"property": pid, "kind": kind, "message": f["msg"], "seed": seed, "tier": tier, "case": f["case"]}
+                if sys.flags.optimize:
+                    rec["interpreter_flags"] = "-O"
                 if f.get("prefix"):
                     rec["prefix"] = f["prefix"]
                 json.dump(rec, fh, indent=1, sort_keys=True)
                 fh.write("\n")
             print(f"  {f['msg'][:500]}")
             print(f"VIOLATION property={pid} replay={path}")
+        return 1
+    if opt and opt["returncode"] == 1:
+        print("  in an interpreter started with -O:")
+        for line in opt["output"].splitlines():
+            if line.startswith("VIOLATION") or line.startswith("  ["):
+                print(line)
         return 1
     return 0
